@@ -1,7 +1,392 @@
-import PonyVerif.Model.DbSession
+/-
+  C18 — a db_session commits exactly when its body succeeds.  Property theorems only.
+
+  Model: PonyVerif/Model/DbSession.lean (mirrors pony/orm/core.py DBSessionContextManager, pony/flask/__init__.py,
+  pony/orm/integration/bottle_plugin.py).  Every theorem is for ALL environments `env` (which commits fail, which
+  exceptions carry `should_retry`, which are TransactionErrors), ALL option records `o` (retry count, ddl, serializable,
+  `allowed_exceptions` / `retry_exceptions` as arbitrary — possibly raising — predicates) and ALL bodies, where a body is
+  an arbitrary program `Prog` (writes, raises, try/except, nested `with db_session`, nested decorated calls, wrapped
+  generators, Flask requests, to any depth).
+
+  Vocabulary (Lemmas/DbSession.lean):
+    Clean s             the thread is outside every session and holds nothing uncommitted
+    entered o s         the state in which the body of an outermost session `o` starts
+    wantsCommit o exc   `_commit_or_rollback` chooses commit: no exception, or `allowed_exceptions` says yes
+    commitOK env n ws   committing `ws` as the n-th real commit succeeds (nothing pending: trivially)
+    corErr …            the exception `_commit_or_rollback` itself raises (commit failure / raising callable)
+    attCommits env o a  attempt `a` of a decorated function ends with its writes committed:
+                        the commit goes through and (the body returned, or it raised an exception that is not retried
+                        and that the session allows)
+    attOutSpec env o a  how the loop iteration ends: `done out` / `again e`
+    Chain … i log       `log` faithfully records consecutive body executions i, i+1, …, each started right after the
+                        outermost `_enter()` with nothing pending and the database as it was before the call, all but
+                        the last ending in "retry"
+-/
+import PonyVerif.Lemmas.DbSession
 namespace PonyVerif.Props.C18
 open PonyVerif.Model.DbSession
 
-theorem C18_placeholder : (exec {} .skip {}).2 = .ret := rfl
+/-! ### nested sessions: only the outermost exit commits or rolls back -/
+
+/-- While a session is open, NO program — whatever it nests: `with db_session(...)`, decorated calls (any `retry`),
+    wrapped generators, Flask requests, try/except — commits, rolls back, or changes the nesting counter or the
+    outermost session; it can only add pending writes.  (Unbounded nesting depth: induction over programs.) -/
+theorem C18_nested (env : Env) (p : Prog) (s : St) (hc : 0 < s.counter) (hs : s.session.isSome = true) :
+    (exec env p s).1.committed = s.committed ∧ (exec env p s).1.ncommit = s.ncommit ∧
+    (exec env p s).1.counter = s.counter ∧ (exec env p s).1.session = s.session ∧
+    ∃ ws, (exec env p s).1.pending = s.pending ++ ws := by
+  have h := exec_inner env p s hc hs
+  exact ⟨h.committed, h.ncommit, h.counter, h.session, h.pending⟩
+
+/-- every top-level program leaves the thread clean: counter 0, no session, nothing pending — nothing uncommitted can
+    leak into the next session or the next attempt -/
+theorem C18_no_leak (env : Env) (p : Prog) (s : St) (hc : Clean s) : Clean (exec env p s).1 :=
+  exec_clean env p s hc
+
+/-! ### context manager `with db_session(**o): body` -/
+
+/-- commit-iff: the body's writes (`b.1.pending`) are committed iff the body returned or raised an exception for which
+    `allowed_exceptions` says yes — and the commit itself goes through; otherwise the database is unchanged.
+    In every case the thread is clean afterwards. -/
+theorem C18_cm_commit_iff (env : Env) (o : Opts) (body : Prog) (s : St) (hc : Clean s) (h0 : o.retry = 0) :
+    let b := exec env body (entered o s)
+    let r := exec env (.withSession o body) s
+    Clean r.1 ∧
+    r.1.committed = s.committed ++
+      (if wantsCommit o b.2.exc? && commitOK env s.ncommit b.1.pending then b.1.pending else []) := by
+  intro b r
+  have h := cm_top env o (exec env body) s hc (exec_inner env body) h0
+  exact ⟨h.1, h.2.1⟩
+
+/-- propagation: the outcome is the body's outcome unless `__exit__` itself raises (commit failure, raising callable),
+    in which case that exception propagates; in particular an exception of the body is never swallowed and a normal
+    result is reported only if the body returned and the commit went through. -/
+theorem C18_cm_propagates (env : Env) (o : Opts) (body : Prog) (s : St) (hc : Clean s) (h0 : o.retry = 0) :
+    let b := exec env body (entered o s)
+    let r := exec env (.withSession o body) s
+    r.2 = (match corErr env o b.2.exc? s.ncommit b.1.pending with
+           | some e' => .raise e'
+           | none => b.2) ∧
+    (∀ e, b.2 = .raise e → ∃ e', r.2 = .raise e') ∧
+    (r.2 = .ret → b.2 = .ret ∧ commitOK env s.ncommit b.1.pending = true) := by
+  intro b r
+  have h := (cm_top env o (exec env body) s hc (exec_inner env body) h0).2.2.2
+  have h' : r.2 = (match corErr env o b.2.exc? s.ncommit b.1.pending with
+           | some e' => .raise e'
+           | none => b.2) := h
+  refine ⟨h', ?_, ?_⟩
+  · intro e he
+    rw [h']
+    cases corErr env o b.2.exc? s.ncommit b.1.pending with
+    | some e' => exact ⟨e', rfl⟩
+    | none => exact ⟨e, he⟩
+  · intro hr
+    rw [h'] at hr
+    cases hce : corErr env o b.2.exc? s.ncommit b.1.pending with
+    | some e' => rw [hce] at hr; cases hr
+    | none =>
+      rw [hce] at hr
+      dsimp only at hr
+      refine ⟨hr, ?_⟩
+      rw [hr] at hce
+      exact (commitOK_iff _ _ _).2 hce
+
+/-- `with db_session(retry=n)`, n ≠ 0: TypeError before anything happens -/
+theorem C18_cm_retry_rejected (env : Env) (o : Opts) (body : Prog) (s : St) (h0 : o.retry ≠ 0) :
+    exec env (.withSession o body) s = (s, .raise .retryInCM) := by
+  simp [exec, cm, h0]
+
+/-! ### decorator `@db_session(**o)` on a plain function: the retry loop -/
+
+/-- the log of a top-level call is a faithful chain of consecutive executions 0, 1, 2, … of the body -/
+theorem C18_decorator_chain (env : Env) (o : Opts) (f : Nat → Prog) (s : St) (hc : Clean s) :
+    Chain env o (fun i => exec env (f i)) s.committed 0 (decorated env o (fun i => exec env (f i)) s).log := by
+  rw [decorated_top env o _ s hc]
+  exact (loop_spec env o _ (fun j => exec_inner env (f j)) o.retry 0 none s hc).1
+
+/-- retry bound: the body runs at least once and at most retry+1 times -/
+theorem C18_retry_bound (env : Env) (o : Opts) (f : Nat → Prog) (s : St) (hc : Clean s) :
+    1 ≤ (decorated env o (fun i => exec env (f i)) s).log.length ∧
+    (decorated env o (fun i => exec env (f i)) s).log.length ≤ o.retry + 1 := by
+  rw [decorated_top env o _ s hc]
+  obtain ⟨_, h2, _, a, h4, _⟩ := loop_spec env o _ (fun j => exec_inner env (f j)) o.retry 0 none s hc
+  refine ⟨?_, h2⟩
+  cases hl : (loop env o (fun i => exec env (f i)) (o.retry + 1) 0 none s).log with
+  | nil => rw [hl] at h4; cases h4
+  | cons x xs => simp
+
+/-- every attempt starts from the committed state: right after the outermost `_enter()`, nothing pending (the previous
+    attempt's writes are gone) and the database exactly as it was before the call -/
+theorem C18_attempts_start_from_committed (env : Env) (o : Opts) (f : Nat → Prog) (s : St) (hc : Clean s) :
+    ∀ a ∈ (decorated env o (fun i => exec env (f i)) s).log,
+      a.start.pending = [] ∧ a.start.committed = s.committed ∧ a.start.counter = 1 ∧ a.start.session = some o.sess := by
+  intro a ha
+  obtain ⟨h1, h2, h3⟩ := (chain_all (C18_decorator_chain env o f s hc)).1 a ha
+  exact ⟨h2, h3, h1.1, h1.2⟩
+
+/-- a retry happens only for retryable exceptions: every execution but the last ended with an exception `e` (of the body,
+    or of `commit()`) for which `exc.should_retry` or `retry_exceptions` said yes — and committed nothing -/
+theorem C18_retry_only_retryable (env : Env) (o : Opts) (f : Nat → Prog) (s : St) (hc : Clean s) :
+    ∀ a ∈ (decorated env o (fun i => exec env (f i)) s).log.dropLast,
+      ∃ e, a.exc = some e ∧ doRetry env o e = .yes ∧ attCommits env o a = false :=
+  (chain_all (C18_decorator_chain env o f s hc)).2.1
+
+/-- the j-th record is what the j-th execution of the body really did -/
+theorem C18_log_faithful (env : Env) (o : Opts) (f : Nat → Prog) (s : St) (hc : Clean s)
+    (j : Nat) (h : j < (decorated env o (fun i => exec env (f i)) s).log.length) :
+    Faithful env o (fun i => exec env (f i)) s.committed j (decorated env o (fun i => exec env (f i)) s).log[j] := by
+  have := (chain_all (C18_decorator_chain env o f s hc)).2.2 j h
+  simpa using this
+
+/-- commit-iff for the decorator: after the call the thread is clean and the database is the old one plus the writes of
+    the LAST execution of the body iff that execution `attCommits` (returned, or raised a non-retried allowed exception,
+    and the commit went through); otherwise the database is unchanged.  The outcome is determined by the last execution;
+    when it asked for another retry, the retries were exhausted and its exception propagates. -/
+theorem C18_decorator_commit_iff (env : Env) (o : Opts) (f : Nat → Prog) (s : St) (hc : Clean s) :
+    let r := decorated env o (fun i => exec env (f i)) s
+    Clean r.st ∧
+    ∃ a, r.log.getLast? = some a ∧
+      r.st.committed = s.committed ++ (if attCommits env o a then a.writes else []) ∧
+      r.out = (match attOutSpec env o a with | .done out => out | .again e => .raise e) ∧
+      (∀ e, attOutSpec env o a = .again e → r.log.length = o.retry + 1) := by
+  intro r
+  have hr : r = loop env o (fun i => exec env (f i)) (o.retry + 1) 0 none s := decorated_top env o _ s hc
+  rw [hr]
+  obtain ⟨_, _, h3, a, h4⟩ := loop_spec env o _ (fun j => exec_inner env (f j)) o.retry 0 none s hc
+  exact ⟨h3, a, h4⟩
+
+/-- propagation for the decorator: the call returns normally iff the last execution returned and its commit went
+    through; if the `except:` clause saw `e` and neither predicate raises, `e` itself propagates (or, when it is allowed
+    and not retried, the exception of the failing commit) -/
+theorem C18_decorator_propagates (env : Env) (o : Opts) (f : Nat → Prog) (s : St) (hc : Clean s) :
+    let r := decorated env o (fun i => exec env (f i)) s
+    ∃ a, r.log.getLast? = some a ∧
+      (r.out = .ret ↔ a.exc = none) ∧
+      (∀ e, a.exc = some e → (∀ x, o.allowed e ≠ .raises x) → (∀ x, doRetry env o e ≠ .raises x) →
+        commitOK env a.start.ncommit (if a.bodyOut = .ret then [] else a.writes) = true → r.out = .raise e) := by
+  intro r
+  obtain ⟨_, a, h1, _, h3, _⟩ := C18_decorator_commit_iff env o f s hc
+  refine ⟨a, h1, ?_, ?_⟩
+  · show (decorated env o (fun i => exec env (f i)) s).out = .ret ↔ _
+    rw [h3]
+    unfold attOutSpec
+    cases hx : a.exc with
+    | none => simp
+    | some e =>
+      simp only [reduceCtorEq, iff_false]
+      cases doRetry env o e with
+      | yes => cases o.allowed e <;> simp
+      | no => simp
+      | raises e' => simp
+  · intro e hx hna hnr hok
+    show (decorated env o (fun i => exec env (f i)) s).out = .raise e
+    rw [h3]
+    have hce : commitErr env a.start.ncommit (if a.bodyOut = .ret then [] else a.writes) = none :=
+      (commitOK_iff _ _ _).1 hok
+    unfold attOutSpec
+    simp only [hx]
+    cases hd : doRetry env o e with
+    | yes =>
+      cases ha : o.allowed e with
+      | raises x => exact absurd ha (hna x)
+      | yes => rfl
+      | no => rfl
+    | raises x => exact absurd hd (hnr x)
+    | no =>
+      simp only [corErr]
+      cases ha : o.allowed e with
+      | raises x => exact absurd ha (hna x)
+      | yes => simp [hce]
+      | no => rfl
+
+/-- called inside another session the decorator does nothing by itself: the body runs exactly once, `retry` is ignored,
+    nothing is committed or rolled back (`ddl`: TransactionError, the body does not run) -/
+theorem C18_decorator_nested (env : Env) (o : Opts) (f : Nat → Prog) (s : St) (hc : s.counter ≠ 0) :
+    exec env (.call o f) s = if o.ddl then (s, .raise .ddlDecoratedInside) else exec env (f 0) s := by
+  simp only [exec, decorated, hc, ne_eq, not_false_eq_true, if_true]
+  split <;> rfl
+
+/-! ### Flask and Bottle glue -/
+
+/-- Flask: a request whose view ran under Pony's hooks is committed iff the view returned (the module-level db_session
+    allows no exception) and the commit went through; otherwise nothing is committed; the view's exception stays the
+    outcome of the request. -/
+theorem C18_flask (env : Env) (view : Prog) (s : St) (hc : Clean s) :
+    let b := exec env view (entered (defaultOpts env) s)
+    let r := exec env (.flask true view) s
+    Clean r.1 ∧
+    r.1.committed = s.committed ++
+      (if b.2 = .ret ∧ commitOK env s.ncommit b.1.pending = true then b.1.pending else []) ∧
+    (∀ e, b.2 = .raise e → r.2 = .raise e ∧ r.1.committed = s.committed) := by
+  intro b r
+  have hr : r = cm env (defaultOpts env) (exec env view) s := flask_eq_cm env _ s hc
+  have h := cm_top env (defaultOpts env) (exec env view) s hc (exec_inner env view) rfl
+  dsimp only at h
+  have hal : ∀ e, (defaultOpts env).allowed e = .no := fun _ => rfl
+  rw [hr]
+  refine ⟨h.1, ?_, ?_⟩
+  · rw [h.2.1]
+    show _ ++ (if wantsCommit (defaultOpts env) b.2.exc? && commitOK env s.ncommit b.1.pending then b.1.pending else []) = _
+    cases hb : b.2 <;> simp [wantsCommit, Outcome.exc?, hal]
+  · intro e he
+    have hb : (exec env view (entered (defaultOpts env) s)).2 = .raise e := he
+    refine ⟨?_, ?_⟩
+    · rw [h.2.2.2, hb]; simp [Outcome.exc?, corErr, hal]
+    · rw [h.2.1, hb]; simp [Outcome.exc?, wantsCommit, hal]
+
+/-- Flask, teardown without Pony's before_request hook having run (`request.pony_session` absent): `_exit_session`
+    does nothing -/
+theorem C18_flask_unhooked (env : Env) (view : Prog) (s : St) :
+    exec env (.flask false view) s = exec env view s := by
+  simp only [exec, flaskRequest, Bool.false_eq_true, if_false, flaskExit]
+
+/-- Bottle: `PonyPlugin.apply` runs the callback exactly once; its writes are committed iff the commit goes through and
+    the callback returned or raised a non-error HTTPResponse (`isRedirect`) that is not retryable; otherwise nothing is
+    committed. -/
+theorem C18_bottle (env : Env) (isRedirect : Exc → Bool) (callback : Nat → Prog) (s : St) (hc : Clean s) :
+    let r := decorated env (bottleOpts env isRedirect) (fun i => exec env (callback i)) s
+    Clean r.st ∧
+    ∃ a, r.log = [a] ∧
+      r.st.committed = s.committed ++
+        (if commitOK env s.ncommit a.writes &&
+            (match a.bodyOut with
+             | .ret => true
+             | .raise e => isRedirect e && !(env.shouldRetry e) && !(env.isTx e))
+         then a.writes else []) := by
+  intro r
+  obtain ⟨h1, a, h2, h3, _⟩ := C18_decorator_commit_iff env (bottleOpts env isRedirect) callback s hc
+  have hb := C18_retry_bound env (bottleOpts env isRedirect) callback s hc
+  have hlen : r.log.length = 1 := by
+    have h0 : (bottleOpts env isRedirect).retry = 0 := rfl
+    rw [h0] at hb
+    exact Nat.le_antisymm hb.2 hb.1
+  have hlog : r.log = [a] := by
+    cases hl : r.log with
+    | nil => rw [hl] at hlen; cases hlen
+    | cons x xs =>
+      cases xs with
+      | nil =>
+        have h2' : r.log.getLast? = some a := h2
+        rw [hl] at h2'
+        simp at h2'
+        rw [h2']
+      | cons y ys => rw [hl] at hlen; simp at hlen
+  have hstart := C18_attempts_start_from_committed env (bottleOpts env isRedirect) callback s hc a
+    (by show a ∈ r.log; rw [hlog]; simp)
+  have hf := C18_log_faithful env (bottleOpts env isRedirect) callback s hc 0 (by show 0 < r.log.length; omega)
+  have ha0 : (decorated env (bottleOpts env isRedirect) (fun i => exec env (callback i)) s).log[0]'(by show 0 < r.log.length; omega) = a := by
+    have : r.log[0]'(by omega) = a := by simp [hlog]
+    exact this
+  rw [ha0] at hf
+  have hn : a.start.ncommit = s.ncommit := by
+    have h := hf.entered
+    -- the start state is `entered o s` up to nothing: ncommit is untouched by `_enter`
+    have hch := C18_decorator_chain env (bottleOpts env isRedirect) callback s hc
+    have hr : r = loop env (bottleOpts env isRedirect) (fun i => exec env (callback i)) 1 0 none s :=
+      decorated_top env _ _ s hc
+    have hl2 : r.log = [a] := hlog
+    rw [hr, loop_unfold env _ _ 0 0 none s hc] at hl2
+    rcases ht : attempt env (bottleOpts env isRedirect) (fun i => exec env (callback i)) 0 (entered (bottleOpts env isRedirect) s) with ⟨s2, ao, a'⟩
+    rw [ht] at hl2
+    have ha' : a' = a := by
+      cases ao <;> simpa [loop] using hl2
+    rcases hb2 : exec env (callback 0) (entered (bottleOpts env isRedirect) s) with ⟨bs, bo⟩
+    have hsp := (attempt_spec env (bottleOpts env isRedirect) (fun i => exec env (callback i)) 0 _
+      (entered_Entered _ s) (exec_inner env (callback 0)) bs bo hb2).1
+    rw [ht] at hsp
+    simp only at hsp
+    rw [← ha', hsp]
+    rfl
+  refine ⟨h1, a, hlog, ?_⟩
+  show (decorated env (bottleOpts env isRedirect) (fun i => exec env (callback i)) s).st.committed = _
+  rw [h3]
+  congr 1
+  simp only [attCommits, hn]
+  cases a.bodyOut with
+  | ret => rfl
+  | raise e =>
+    simp only [doRetry, bottleOpts]
+    by_cases hs : env.shouldRetry e = true <;> by_cases ht : env.isTx e = true <;>
+      by_cases hrd : isRedirect e = true <;> simp [hs, ht, hrd]
+
+/-! ### generator functions -/
+
+/-- one step of a `db_session`-wrapped generator, resumed outside any session: afterwards the thread is clean again
+    (the consumer's state is restored around the suspension), nothing uncommitted is carried over the suspension
+    (`db2cache_copy` holds no pending write), and exactly `stepCommits` was committed:
+    the manually committed prefix of the segment iff that `commit()` went through, the rest iff the generator returned
+    (StopIteration) and the final commit went through; a segment ending in an exception, in `close()`/`throw()`, or in a
+    `yield` with uncommitted changes commits nothing more and propagates an exception. -/
+theorem C18_generator_step (env : Env) (o : Opts) (seg : Seg) (resume : Resume) (s : St) (hc : Clean s) :
+    Clean (wrappedInteract env o seg resume [] s).1 ∧
+    (wrappedInteract env o seg resume [] s).2.1 = [] ∧
+    (wrappedInteract env o seg resume [] s).1.committed = s.committed ++ stepCommits env s.ncommit seg resume ∧
+    (wrappedInteract env o seg resume [] s).2.2 = stepOutSpec env s.ncommit seg resume := by
+  obtain ⟨h1, h2, _, h4, h5⟩ := step_spec env o seg resume s hc
+  exact ⟨h1, h2, h4, h5⟩
+
+/-- a segment that ends by raising commits nothing beyond what the body committed itself; the exception propagates -/
+theorem C18_generator_raise (env : Env) (o : Opts) (seg : Seg) (s : St) (hc : Clean s) (e : Exc)
+    (hfin : seg.fin = .raise e) (hm : seg.manualCommit = false) :
+    (wrappedInteract env o seg .next [] s).1.committed = s.committed ∧
+    (wrappedInteract env o seg .next [] s).2.2 = .raised e := by
+  obtain ⟨_, _, h3, h4⟩ := C18_generator_step env o seg .next s hc
+  rw [h3, h4]
+  simp [stepCommits, stepOutSpec, hfin, hm]
+
+/-- a wrapped generator resumed inside another db_session: TransactionError, nothing touched -/
+theorem C18_generator_inside_session (env : Env) (o : Opts) (seg : Seg) (resume : Resume) (copy : List Write) (s : St)
+    (hs : s.session.isSome = true) :
+    wrappedInteract env o seg resume copy s = (s, copy, .raised .genInsideSession) := by
+  simp [wrappedInteract, hs]
+
+/-- a whole run of a wrapped generator (any resume script): clean at the end, the database only grows -/
+theorem C18_generator_run (env : Env) (o : Opts) (steps : List (Seg × Resume)) (s : St) (hc : Clean s) :
+    Clean (exec env (.iter o steps) s).1 ∧ s.committed <+: (exec env (.iter o steps) s).1.committed :=
+  iterGen_clean env o steps s hc
+
+/-! ### non-vacuity: concrete runs of the model -/
+
+def eRetry : Exc := .user 1
+def eAllowed : Exc := .user 2
+def eOther : Exc := .user 3
+
+def optsEx : Opts :=
+  { retry := 2,
+    allowed := fun e => if e = eAllowed then .yes else .no,
+    retryable := fun e => if e = eRetry then .yes else .no }
+
+/-- body: attempts 0 and 1 write and raise the retryable exception, attempt 2 writes and returns -/
+def bodyEx (i : Nat) : Prog :=
+  if i < 2 then .seq (.write (10 + i)) (.raise eRetry) else .seq (.write (10 + i)) (.withSession {} (.write 99))
+
+example : Clean ({} : St) := ⟨rfl, rfl, rfl⟩
+
+example : (exec {} (.call optsEx bodyEx) {}).1.committed = [12, 99] ∧ (exec {} (.call optsEx bodyEx) {}).2 = .ret ∧
+    (decorated {} optsEx (fun i => exec {} (bodyEx i)) {}).log.length = 3 := by decide
+
+/-- retries exhausted: nothing committed, the exception propagates, 3 executions -/
+example : (exec {} (.call optsEx (fun i => .seq (.write i) (.raise eRetry))) {}).1.committed = [] ∧
+    (exec {} (.call optsEx (fun i => .seq (.write i) (.raise eRetry))) {}).2 = .raise eRetry ∧
+    (decorated {} optsEx (fun i => exec {} (.seq (.write i) (.raise eRetry))) {}).log.length = 3 := by decide
+
+/-- allowed exception: committed, and it propagates; other exception: rolled back -/
+example : exec {} (.withSession { optsEx with retry := 0 } (.seq (.write 7) (.raise eAllowed))) {} =
+    ({ committed := [7], ncommit := 1 }, .raise eAllowed) := by decide
+example : exec {} (.withSession { optsEx with retry := 0 } (.seq (.write 7) (.raise eOther))) {} =
+    ({}, .raise eOther) := by decide
+
+/-- failing commit: nothing committed, the commit's exception propagates -/
+example : exec { commitFail := fun _ => some (.user 100) } (.withSession {} (.write 7)) {} =
+    ({ ncommit := 1 }, .raise (.user 100)) := by decide
+
+/-- Flask: failing view → rollback; succeeding view → commit -/
+example : exec {} (.flask true (.seq (.write 1) (.raise eOther))) {} = ({}, .raise eOther) := by decide
+example : exec {} (.flask true (.write 1)) {} = ({ committed := [1], ncommit := 1 }, .ret) := by decide
+
+/-- generator: manual commit before the yield is kept, the tail of a raising segment is not -/
+example : exec {} (.iter {} [({ writes := [1], manualCommit := true, fin := .yield }, .next),
+                             ({ writes := [2], fin := .raise eOther }, .next)]) {} =
+    ({ committed := [1], ncommit := 1 }, .raise eOther) := by decide
 
 end PonyVerif.Props.C18
